@@ -507,6 +507,17 @@ def main():
             lost_fail.append({"obligation": "syntactic :: serde :: %s" % sp[:80], "fn": "serde derive / view serialisers", "msg": "assumed serialised form no longer justified",
                               "clause": sp, "origin": None, "rendered": sp})
 
+    if pm.get("syntactic") == "sort":
+        import sort_syntax
+        try:
+            for sp in sort_syntax.check(repo_src):
+                if pm.get("syntactic_filter") and not re.search(pm["syntactic_filter"], sp):
+                    continue
+                lost_fail.append({"obligation": "syntactic :: sort :: %s" % sp[:80], "fn": "SortOps key / Ord wrappers", "msg": "wrapper no longer delegates to the base variant of its axis and stability",
+                                  "clause": sp, "origin": None, "rendered": sp})
+        except Exception as e:
+            undecided.append("sort syntactic check could not run: %s" % e)
+
     if pm.get("syntactic") == "flatten":
         import flatten_syntax
         try:
